@@ -385,6 +385,7 @@ def run_check(prop: str, tier: str, seed: int, jobs: int, budget_s: float) -> in
     # ---- verdicts
     known = load_known(prop)
     exit_code = 0
+    max_report = int(os.environ.get("VERIF_MAX_REPORT", "5"))  # distinct violations minimised and written out
     reported: set[str] = set()
     known_hit: dict[str, str] = {}
     n_viol = 0
@@ -400,6 +401,9 @@ def run_check(prop: str, tier: str, seed: int, jobs: int, budget_s: float) -> in
             known_hit[key] = k["what"]
             continue
         n_viol += 1
+        if n_viol > max_report:
+            exit_code = 1
+            continue  # already reported enough distinct violations in full (minimised, with a replay file)
         case = core.from_jsonable(f["case"])
         mini, tries = minimise(mod, case, v["class"], float(plan.get("minimise_s", 20.0)))
         note = f"minimised with {tries} candidate runs"
